@@ -120,8 +120,14 @@ func mergeMappings(mapping map[string]any, other map[string]any, p tree.Path) (m
 
 // logging driver options are merged only when both compose file define the same driver
 func mergeLogging(c any, o any, p tree.Path) (any, error) {
-	config := c.(map[string]any)
-	other := o.(map[string]any)
+	config, ok := c.(map[string]any)
+	if !ok {
+		return nil, fmt.Errorf("cannot override %s", p)
+	}
+	other, ok := o.(map[string]any)
+	if !ok {
+		return nil, fmt.Errorf("cannot override %s", p)
+	}
 	// we override logging config if source and override have the same driver set, or none
 	d, ok1 := other["driver"]
 	o, ok2 := config["driver"]
@@ -147,20 +153,32 @@ func mergeBuild(c any, o any, path tree.Path) (any, error) {
 }
 
 func mergeDependsOn(c any, o any, path tree.Path) (any, error) {
-	right := convertIntoMapping(c, map[string]any{
+	right, err := convertIntoMapping(c, map[string]any{
 		"condition": "service_started",
 		"required":  true,
-	})
-	left := convertIntoMapping(o, map[string]any{
+	}, path)
+	if err != nil {
+		return nil, err
+	}
+	left, err := convertIntoMapping(o, map[string]any{
 		"condition": "service_started",
 		"required":  true,
-	})
+	}, path)
+	if err != nil {
+		return nil, err
+	}
 	return mergeMappings(right, left, path)
 }
 
 func mergeNetworks(c any, o any, path tree.Path) (any, error) {
-	right := convertIntoMapping(c, nil)
-	left := convertIntoMapping(o, nil)
+	right, err := convertIntoMapping(c, nil, path)
+	if err != nil {
+		return nil, err
+	}
+	left, err := convertIntoMapping(o, nil, path)
+	if err != nil {
+		return nil, err
+	}
 	return mergeMappings(right, left, path)
 }
 
@@ -227,10 +245,24 @@ func mergeUlimit(_ any, o any, p tree.Path) (any, error) {
 
 func mergeIPAMConfig(c any, o any, path tree.Path) (any, error) {
 	var ipamConfigs []any
-	for _, original := range c.([]any) {
-		right := convertIntoMapping(original, nil)
-		for _, override := range o.([]any) {
-			left := convertIntoMapping(override, nil)
+	base, ok := c.([]any)
+	if !ok {
+		return nil, fmt.Errorf("cannot override %s", path)
+	}
+	overrides, ok := o.([]any)
+	if !ok {
+		return nil, fmt.Errorf("cannot override %s", path)
+	}
+	for _, original := range base {
+		right, err := convertIntoMapping(original, nil, path)
+		if err != nil {
+			return nil, err
+		}
+		for _, override := range overrides {
+			left, err := convertIntoMapping(override, nil, path)
+			if err != nil {
+				return nil, err
+			}
 			if left["subnet"] != right["subnet"] {
 				// check if left is already in ipamConfigs, add it if not and continue with the next config
 				if !slices.ContainsFunc(ipamConfigs, func(a any) bool {
@@ -260,23 +292,27 @@ func mergeIPAMConfig(c any, o any, path tree.Path) (any, error) {
 	return ipamConfigs, nil
 }
 
-func convertIntoMapping(a any, defaultValue map[string]any) map[string]any {
+func convertIntoMapping(a any, defaultValue map[string]any, p tree.Path) (map[string]any, error) {
 	switch v := a.(type) {
 	case map[string]any:
-		return v
+		return v, nil
 	case []any:
 		converted := map[string]any{}
 		for _, s := range v {
+			key, ok := s.(string)
+			if !ok {
+				return nil, fmt.Errorf("cannot override %s: unexpected value %v", p, s)
+			}
 			if defaultValue == nil {
-				converted[s.(string)] = nil
+				converted[key] = nil
 			} else {
 				// Create a new map for each key
-				converted[s.(string)] = copyMap(defaultValue)
+				converted[key] = copyMap(defaultValue)
 			}
 		}
-		return converted
+		return converted, nil
 	}
-	return nil
+	return nil, nil
 }
 
 func copyMap(m map[string]any) map[string]any {
